@@ -19,8 +19,21 @@ VAL = {"energy_density": {1: 1e3, 2: 2.5e3}, "pulse_energy": {1: 1.0, 2: 3.0}, "
        "bins": {1: 1, 2: 7}, "mean": {1: 1060.0, 2: 1060.3}, "stddev": {1: 0.2, 2: 0.35}}
 
 
+_DEFAULTS = {}
+
+
+def default_of(obj, p):
+    """the constructor default of parameter p of obj's class (read off a default-constructed object)"""
+    cls = type(obj)
+    if cls not in _DEFAULTS:
+        _DEFAULTS[cls] = cls()
+    return float(getattr(_DEFAULTS[cls], p))
+
+
 def conc(p, v, obj=None):
     from raysect.core import Vector3D
+    if v == 3 and p != "polarization":
+        return default_of(obj, p)
     if p == "polarization":
         return Vector3D(0, 1, 0) if v == 1 else Vector3D(1, 1, 0)
     if v == 0:
@@ -35,17 +48,11 @@ def conc(p, v, obj=None):
 def build(kind, par):
     from cherab.core.model.laser import (UniformEnergyDensity, ConstantBivariateGaussian, TrivariateGaussian, GaussianBeamAxisymmetric,
                                          ConstantSpectrum, GaussianSpectrum)
-    c = {p: conc(p, v) for p, v in par.items()}
-    if kind == "uniform":
-        return UniformEnergyDensity(c["energy_density"], c["laser_length"], c["laser_radius"], c["polarization"])
-    if kind == "cbg":
-        return ConstantBivariateGaussian(c["pulse_energy"], c["pulse_length"], c["laser_radius"], c["laser_length"], c["stddev_x"], c["stddev_y"], c["polarization"])
-    if kind == "trivariate":
-        return TrivariateGaussian(pulse_energy=c["pulse_energy"], pulse_length=c["pulse_length"], mean_z=c["mean_z"], laser_length=c["laser_length"],
-                                  laser_radius=c["laser_radius"], stddev_x=c["stddev_x"], stddev_y=c["stddev_y"], polarization=c["polarization"])
-    if kind == "gaussbeam":
-        return GaussianBeamAxisymmetric(pulse_energy=c["pulse_energy"], pulse_length=c["pulse_length"], laser_length=c["laser_length"], laser_radius=c["laser_radius"],
-                                        waist_z=c["waist_z"], stddev_waist=c["stddev_waist"], laser_wavelength=c["laser_wavelength"], polarization=c["polarization"])
+    # value id 3: the argument is omitted, the constructor's default applies
+    c = {p: conc(p, v) for p, v in par.items() if not (v == 3 and p != "polarization")}
+    cls = {"uniform": UniformEnergyDensity, "cbg": ConstantBivariateGaussian, "trivariate": TrivariateGaussian, "gaussbeam": GaussianBeamAxisymmetric}.get(kind)
+    if cls is not None:
+        return cls(**c)
     if kind == "constspec":
         return ConstantSpectrum(c["min_wavelength"], c["max_wavelength"], c["bins"])
     return GaussianSpectrum(c["min_wavelength"], c["max_wavelength"], c["bins"], c["mean"], c["stddev"])
@@ -146,6 +153,25 @@ def identities(kind, obj, par, seg, quick):
     want = [[r, L / n, (i * L) / n] for i in range(n)] if n else []
     if not (max(1, seg["nmax"] - 1) <= n <= seg["nmax"]) or not all(core.close(g, w, rtol=1e-12, atol=1e-15) for g, w in zip(got, want)):
         bad.append(("segments-do-not-tile-as-specified", f"{n} pieces (spec allows {max(1, seg['nmax'] - 1)}..{seg['nmax']}): got {got[:3]}.. want {want[:3]}.."))
+    # the documented closed forms, point by point
+    def g(x, s):
+        return math.exp(-0.5 * (x / s) ** 2) / (math.sqrt(2 * math.pi) * s)
+    for (x, y, z) in PTS:
+        if kind == "uniform":
+            want = obj.energy_density
+        elif kind == "cbg":
+            want = obj.pulse_energy / (C * obj.pulse_length) * g(x, obj.stddev_x) * g(y, obj.stddev_y)
+        elif kind == "trivariate":
+            want = obj.pulse_energy * g(x, obj.stddev_x) * g(y, obj.stddev_y) * g(z - obj.mean_z, C * obj.pulse_length)
+        else:
+            zr = 2 * math.pi * obj.stddev_waist ** 2 / (obj.laser_wavelength * 1e-9)
+            sg = obj.stddev_waist * math.sqrt(1 + ((z - obj.waist_z) / zr) ** 2)
+            want = obj.pulse_energy / (C * obj.pulse_length) * g(x, sg) * g(y, sg)
+        got_ = obj.get_energy_density(x, y, z)
+        if not core.close(got_, want, rtol=1e-11, atol=1e-300):
+            bad.append(("energy-density-differs-from-documented-formula", f"at {(x, y, z)}: {got_!r} vs {want!r} with reported parameters "
+                        + str({a: getattr(obj, a) for a in ('pulse_energy', 'pulse_length', 'stddev_x', 'stddev_y', 'mean_z') if hasattr(obj, a)})))
+            break
     if kind in ("cbg", "gaussbeam", "trivariate"):
         ep, tau = obj.pulse_energy, obj.pulse_length
         n = 81 if quick else 161
